@@ -559,7 +559,7 @@ TIERS = {
     # runs, sim seconds cap, hash contexts, hashctx corpus extra docs
     "quick": {"runs": 2400, "sim_s": 35, "ctx": 24, "docs": 600, "ctx_s": 60,
               "sweep_pairs": 6, "sweep_stride": 1, "sweep_all_pairs": 0, "sweep_s": 30, "base_s": 22,
-              "sweep_double": 120, "sweep_opcode_pairs": 0},
+              "sweep_double": 60, "sweep_opcode_pairs": 0, "sweep_lasts": False, "sweep_cancel_stride": 2},
     "thorough": {"runs": 60000, "sim_s": 900, "ctx": 192, "docs": 4000, "ctx_s": 500,
                  "sweep_pairs": 150, "sweep_stride": 1, "sweep_all_pairs": 12, "sweep_s": 800, "base_s": 400,
                  "sweep_double": 600, "sweep_opcode_pairs": 6},
@@ -734,7 +734,11 @@ class Checker:
 
         def doc():
             fr = [tg.pick(ties)] if ties and g.random() < 0.5 else None
+            # half of the sweep documents exercise the court lookup for sure (its
+            # first use in a process is a lazy-initialisation site)
+            tg.force_paren = g.random() < 0.35
             t = tg.document(n_items=g.randrange(1, 3), frags=None)
+            tg.force_paren = False
             if fr:
                 t = tg.cite(fr[0]) + "; " + t
             return t[:300]
@@ -791,7 +795,12 @@ class Checker:
                 self.harness.append({"sweep": res})
                 continue
             na = max([n for (t, j, n) in res["op_events"] if t == 0 and j == 0] or [0])
-            if na <= 0 or na > self.cfg.get("sweep_max_events", 8000) * (8 if op_mode else 1):
+            all_next = (not op_mode) and sw["pairs_in_all_events_mode"] < n_all
+            # only the all-events mode costs one run per event; the sites mode costs
+            # one run per distinct source line, however long a loop runs (a lazy
+            # initialiser that walks a 2,800-entry table is exactly what we want)
+            cap = self.cfg.get("sweep_max_events", 8000) if all_next else 200_000
+            if na <= 0 or na > cap:
                 sw["skipped_long"] += 1
                 continue
             absorb(base, res, ("sweep-base", pi))
@@ -807,13 +816,15 @@ class Checker:
             if all_mode:
                 sw["pairs_in_all_events_mode"] += 1
                 points = list(range(1, na + 1, stride))
-            elif op_mode:
+            elif op_mode or not self.cfg.get("sweep_lasts", True):
                 points = sorted(set(x[0] for x in sites))
             else:
                 points = sorted(set([x[0] for x in sites] + [x[1] for x in sites]))
             cpoints = sorted(set(x[0] for x in sites)) if not all_mode else points
             if op_mode:
                 cpoints = cpoints[::4]
+            elif not all_mode:
+                cpoints = cpoints[pi % self.cfg.get("sweep_cancel_stride", 1)::self.cfg.get("sweep_cancel_stride", 1)]
             # double pre-emption: A stops at k1, B runs until k2, A finishes, B resumes
             firsts_a = sorted(set(x[0] for x in sites))
             firsts_b = sorted(set(x[0] for x in sites_b))
